@@ -85,6 +85,24 @@ Theorem C12_stabilize_clears_recover_state :
 Proof. exact stabilize_ok_clears. Qed.
 Print Assumptions C12_stabilize_clears_recover_state.
 
+(** ... on whichever attempt of its retry loop the stabilising parse succeeds *)
+Theorem C12_stabilize_success_is_stable :
+  forall f a lx c st v lx' st',
+  run f (GStabilize a) lx c st = (ROk v lx', st') -> c_rec lx' = None.
+Proof. exact stabilize_success_stable. Qed.
+Print Assumptions C12_stabilize_success_is_stable.
+
+(** the retried success spelled out: the stabilised parser fails, stabilize resumes the recovery at
+    [lx1], the parser succeeds there: the result is that success with the recover state cleared *)
+Theorem C12_stabilize_retry_clears_recover_state :
+  forall f a lx c st e st1 r lx1 st2 v lx' st',
+  run (S (S f)) a lx c st = (RErr e, st1) -> c_rec lx = Some r ->
+  advance_to_recover lx st1 = (Ok (true, lx1), st2) ->
+  run (S (S f)) a lx1 (ctx_unrec c) st2 = (ROk v lx', st') ->
+  run (S (S (S f))) (GStabilize a) lx c st = (ROk v (set_rec lx' None), st').
+Proof. exact stabilize_retry_ok_clears. Qed.
+Print Assumptions C12_stabilize_retry_clears_recover_state.
+
 Theorem C12_no_sink_returns_error :
   forall f r a lx c st e st1,
   run f a lx c st = (RErr e, st1) -> has_sink c = false ->
